@@ -675,6 +675,50 @@ def inline_temporaries(func, known_locals):
                     rebound = True
             if rebound:
                 continue
+            # the value must mean the same where it is used: anything but
+            # plain locals and constants may only move over statements that
+            # neither call, await nor store into objects
+            fragile = any(isinstance(y, (ast.Attribute, ast.Subscript,
+                                         ast.Call, ast.Starred))
+                          for y in ast.walk(v))
+            if fragile:
+                last = None
+                for j in range(idx + 1, len(holder)):
+                    if any(y is l for l in loads
+                           for y in ast.walk(holder[j])):
+                        last = j
+                if last is None:
+                    continue
+                crossing = holder[idx + 1:last]
+                # statements of the using statement that run before the use
+                # are not looked into: it has to be a simple statement
+                if not isinstance(holder[last], (ast.Assign, ast.AugAssign,
+                                                 ast.Expr, ast.Return,
+                                                 ast.AnnAssign, ast.If,
+                                                 ast.While, ast.For,
+                                                 ast.With, ast.Assert,
+                                                 ast.Raise)):
+                    continue
+                if isinstance(holder[last], (ast.If, ast.While, ast.For,
+                                             ast.With)):
+                    hd = {ast.If: "test", ast.While: "test", ast.For: "iter",
+                          ast.With: "items"}[type(holder[last])]
+                    head = getattr(holder[last], hd)
+                    heads = head if isinstance(head, list) else [head]
+                    if not all(any(y is l for h in heads
+                                   for y in ast.walk(h)) for l in loads):
+                        continue
+                moved = False
+                for c in crossing:
+                    for y in ast.walk(c):
+                        if isinstance(y, (ast.Call, ast.Await, ast.Yield,
+                                          ast.YieldFrom, ast.AugAssign,
+                                          ast.Delete)) or (
+                                isinstance(y, (ast.Attribute, ast.Subscript))
+                                and isinstance(y.ctx, (ast.Store, ast.Del))):
+                            moved = True
+                if moved:
+                    continue
             t = _ParamSubst({name: v})
             del holder[idx]
             if not holder:
